@@ -271,8 +271,8 @@ def check(ctx):
     length_arith_all(ctx, repo, msg)
     # grouped: after removal the data buffer is rebuilt from the remaining members
     gp = ctx.need(grp.methods.get("pop"), "GroupedType.pop")
-    src = ast.unparse(gp)
-    ctx.decide("self._data = b''" in src and "self._data += avp.dump()" in src and "for avp in self.avps" in src,
+    from ..astutil import rebuilds_from_members
+    ctx.decide(rebuilds_from_members(gp),
                "R-SIB/length-arith", f"{grp.qual}.pop", grp.where(gp), "Grouped data rebuilt from the remaining members",
                "GroupedType.pop does not rebuild `_data` from the remaining members", key="grouped_rebuild")
 
